@@ -40,6 +40,7 @@ type GenCfg struct {
 	RawStrings       bool // strings that are not valid UTF-8 (only where the record stays a Go value: no JSON text, no form)
 	BigInts          bool // int64 values beyond 2^53 (only where every front end in play carries integers exactly)
 	Formats          bool // Match / UUID / Email / URL tests on strings, with their own input domains
+	HandMade         bool // PostTransforms that report by hand, or return a long-lived issue object of the caller (no Collect in such worlds)
 }
 
 var allKinds = []string{"string", "int", "float", "bool", "time", "struct", "slice", "ptr", "custom", "pre"}
@@ -134,9 +135,9 @@ var formatDomain = map[string][]string{
 	"uuid": {"123e4567-e89b-12d3-a456-426614174000", "123E4567-E89B-12D3-A456-426614174000", "00000000-0000-0000-0000-000000000000", "123e4567e89b12d3a456426614174000",
 		"123e4567--e89b-12d3-a456-426614174000", "123e4567-e89b-12d3-a456-42661417400", "123e4567-e89b-12d3-a456-4266141740000", "g23e4567-e89b-12d3-a456-426614174000",
 		"123e4567-e89b-12d3-a456-426614174000\n", "123e-4567e89b-12d3-a456-426614174000", "123e4567-e89b-12d3-a456-426614174000-", "-123e4567-e89b-12d3-a456-426614174000",
-		"123e4567-e89b-12d3-a456_426614174000", "{123e4567-e89b-12d3-a456-426614174000}", "1-2-3-4-5", "123e4567-e89-b12d3-a456-426614174000", "123e4567-e89b-12d3-a456-42661417-000", "-23e4567-e89b-12d3-a456-426614174000", strings.Repeat("-", 36)},
+		"123e4567-e89b-12d3-a456_426614174000", "{123e4567-e89b-12d3-a456-426614174000}", "1-2-3-4-5", "123e4567-e89-b12d3-a456-426614174000", "123e4567-e89b-12d3-a456-42661417400\u212a", "123e4567-e89b-12d3-a456-42661417-000", "-23e4567-e89b-12d3-a456-426614174000", strings.Repeat("-", 36)},
 	"email": {"a@b.co", "john.doe+tag@example.com", "a@b", "A1!#$%&'*+/=?^_`{|}~-@x.y", "a@", "@b.co", "a b@c.de", "a@b..co", "a@-b.co", "a@b-.co", "a@b.co\n", "a@@b.co", "a@b_c.de",
-		"\u00e9@b.co", "a@b.co.", "a@.b.co", "a.b.co", "a@" + strings.Repeat("x", 63) + ".co", "a@" + strings.Repeat("x", 64) + ".co", "a@b.c-d", "a@b.c-"},
+		"\u00e9@b.co", "a@b.co.", "a@.b.co", "a.b.co", "a@" + strings.Repeat("x", 63) + ".co", "a@" + strings.Repeat("x", 64) + ".co", "a@b.c-d", "a@b.c-", "jame\u017f@example.com", "\u212aelvin@example.com", "ops@\u017ftorage.example.com", "a@b.\u212a"},
 	"url": {"https://example.com", "http://a", "example.com", "https://", "mailto:a@b.co", "//example.com", "https://exa mple.com", "ftp://x/y?z#w", "http://[::1]:80", "http://%zz", ":foo",
 		"http:/a", "http:///path", "HTTP://A.B", "a://b", "1http://a.b", "/just/a/path", "http://a.b\n"},
 }
@@ -347,6 +348,9 @@ func genPTs(r *Rng, c *GenCfg, n *Node) {
 		p := PTSpec{}
 		if r.P(c.PPTErr) {
 			p.Err = Pick(r, []string{"err", "err", "issue", "wrapped"})
+			if c.HandMade && r.P(0.4) {
+				p.Err = Pick(r, []string{"sentinel", "byhand", "byhand"})
+			}
 		}
 		n.PTs = append(n.PTs, p)
 	}
@@ -560,6 +564,7 @@ func genKind(r *Rng, c *GenCfg, kind string, depth int) *Node {
 		}
 	case "struct":
 		n.Extra = r.P(0.1)
+		n.Embed = r.P(0.06)
 		nf := 1 + r.Intn(c.MaxFields)
 		used := map[string]bool{}
 		dashed := false
@@ -832,7 +837,7 @@ func genBad(r *Rng, kind string) Val {
 	case "bool":
 		return Pick(r, []Val{VS("maybe"), VI(2), VL(VB(true), VB(false))})
 	case "time":
-		return Pick(r, []Val{VS("not-a-time"), VB(true), VS("2024-13-45")})
+		return Pick(r, []Val{VS("not-a-time"), VB(true), VS("2024-13-45"), VF(1700000000), VF(12), VF(1.5)})
 	}
 	// strings accept anything
 	return Pick(r, []Val{VI(12), VB(true), VF(1.5)})
